@@ -65,6 +65,20 @@ Section Markers.
   Qed.
 End Markers.
 
+(* Borrowed views (SyntaxText = a shared reference to a node + a shared reference to a resolver of type I + a range).
+   No hand-written marker exists for them (Extracted.other_marker_impls = 0), so the compiler derives: `&T: Send` iff
+   `T: Sync`, `&T: Sync` iff `T: Sync`; hence the view is Send (and Sync) exactly when the node handle is Sync and I is
+   Sync. *)
+Definition view_ok (sync_bounds : list marker) (a : assign) (i_sync : bool) : bool := is_sync sync_bounds a && i_sync.
+
+Theorem view_sound_of send_bounds sync_bounds ctor_bounds :
+  forallb (sound_at send_bounds sync_bounds ctor_bounds) all_assign = true ->
+  forall a i_sync, view_ok sync_bounds a i_sync = true -> deep false a = true /\ i_sync = true.
+Proof.
+  intros F a i V. unfold view_ok in V. apply andb_true_iff in V. destruct V as [V1 V2].
+  split; [|exact V2]. apply (markers_sound_of send_bounds sync_bounds ctor_bounds F a). right. exact V1.
+Qed.
+
 (* the markers as they were before the fix of F4: no bound on D, none on the resolver *)
 Lemma unbounded_markers_refuted :
   exists a, is_send [] a = true /\ constructible [[]; []] a = true /\ deep true a = false /\ deep false a = false.
